@@ -39,6 +39,8 @@ def foreign(rng, ft, k=None):
     if ft == 32:
         for c in rng.sample(range(0, n + 2), 12):
             hi[c] = rng.randrange(1, 16)
+        for c in b[:3] + b[-1:]:         # ... and on clusters of the file the history removes: released entries keep their reserved bits (C16-m10)
+            hi[c] = rng.randrange(1, 16)
     bpc = 512 * kw["spc"]
     files = [("first file.dat", b"FIRST   DAT", 0x20, a, bytes(rng.randrange(256) for _ in range(len(a) * bpc - 5))),
              (None, b"SECOND  BIN", 0x20, b, bytes(rng.randrange(256) for _ in range(max(1, len(b) * bpc - bpc // 2))))]
@@ -88,7 +90,7 @@ def foreign(rng, ft, k=None):
             if ft == 32 and kw.get("backup"):
                 b[6 * 512 + off:6 * 512 + off + n] = val
         img = bytes(b)
-    meta = dict(source="build", ft=ft, reserved1=r1, text_fields=txt, **{k2: v for k2, v in kw.items() if k2 in ("spc", "nf", "clusters", "fatsec", "rootent", "backup")})
+    meta = dict(source="build", ft=ft, reserved1=r1, text_fields=txt, second_chain=list(files[1][3]), **{k2: v for k2, v in kw.items() if k2 in ("spc", "nf", "clusters", "fatsec", "rootent", "backup")})
     return img, meta, len(fill) + len(hi) + (1 if r1 else 0)
 
 
@@ -148,6 +150,12 @@ def run(ctx):
             wv = v.tree()[0].get("/WEAVE.BIN")
             if wv is not None:      # overwritten in place, through its own chain only
                 ops += [["open", "w", "/WEAVE.BIN", "r+"], ["write", "w", (b"\x57" * wv[1]).hex()], ["hclose", "w"]]
+            released = {}
+            sec = v.tree()[0].get("/SECOND.BIN")
+            if (i // 4) % 2 == 0 and sec is not None:
+                # a foreign file is removed: its entries become free, in their low 28 bits only
+                ops += [["remove", "/SECOND.BIN"]]
+                released = {c: (v.fat_raw32(c) & 0xF0000000) if v.ft == 32 else 0 for c in meta["second_chain"]}
             ops += [["closefs"]]
             case2 = history.Case(label, img, ops, mount=dict(encoding="ibm437"), meta=meta)
             r2 = history.run_case(ctx, case2, oracles=("internal",), model=m)
@@ -164,6 +172,11 @@ def run(ctx):
                 before = v.fat_raw32(c) if v.ft == 32 else v.fat_entry(c)
                 after = v2.fat_raw32(c) if v.ft == 32 else v2.fat_entry(c)
                 low = (before & 0x0FFFFFFF) if v.ft == 32 else before      # a FAT32 entry is free when its low 28 bits are zero
+                if c in released:
+                    if after != released[c]:
+                        problems.append(f"FAT entry {c} released by the removal of a foreign file: {before:#x} -> {after:#x}, reserved bits and nothing else were to stay ({released[c]:#x})")
+                        break
+                    continue
                 if low != 0 and before != after:
                     problems.append(f"FAT entry {c} of an untouched cluster changed {before:#x} -> {after:#x}")
                     break
@@ -190,6 +203,9 @@ def run(ctx):
                 if p == "/WEAVE.BIN":
                     if t2.get(p, (None,))[:3] != ("f", t[1], b"\x57" * t[1]):
                         problems.append("the file overwritten in place through its non-monotonic chain does not read back")
+                elif p == "/SECOND.BIN" and released:
+                    if p in t2:
+                        problems.append("the removed foreign file is still there")
                 elif t2.get(p, (None,))[:3] != t[:3]:
                     problems.append(f"foreign file {p} changed")
             if v.ft == 32 and (v.fat_raw32(0) >> 28) != (v2.fat_raw32(0) >> 28):
